@@ -2,6 +2,7 @@ import Nsq.Model.Line
 import Nsq.Model.Chan
 import Nsq.Model.ChanNsqd
 import Nsq.Model.ChanInv
+import Nsq.Model.Pump
 /-! Driver for engine E2 (nsqd / topic / channel / client state machine).
 One operation per input line, one canonical answer line out (DESIGN Appendix B). -/
 open Nsq Nsq.Line
@@ -233,14 +234,41 @@ def stepLine (s : State) (line : String) : State × String :=
   | ["reset"] => ({}, "ok")
   | _ => (s, "bad-op")
 
-partial def loop (h : IO.FS.Stream) (out : IO.FS.Stream) (s : State) : IO Unit := do
+/-- lines of the pump / output-buffer leg (`P …`, harness/e2/e2_pump_test.go) -/
+def stepPump (a : Nsq.Model.Pump.Acc) (w : List String) : Nsq.Model.Pump.Acc × String :=
+  open Nsq.Model.Pump in
+  match w with
+  | ["top"] => obsTop a
+  | ["recv"] => obsRecv a
+  | ["write", shape] => obsWrite a (shape.splitOn ",")
+  | ["settle"] => (a, obsSettle a)
+  | ["expect-resp"] => ({ a with pendingResp := a.pendingResp + 1 }, "ok")
+  | ["subpend"] => ({ a with subPend := true }, "ok")
+  | ["idpend", ob, hb, sm] => match nat? sm with
+    | some sm => ({ a with idPend := some (ob == "1", hb == "1", sm) }, "ok")
+    | none => (a, "bad-op")
+  | ["rdy", n] => match int? n with
+    | some n => ({ a with s := (step a.s (.setRdy n)).1 }, "ok") | none => (a, "bad-op")
+  | ["infl", n] => match int? n with
+    | some n => ({ a with s := (step a.s (.setInFlight n)).1 }, "ok") | none => (a, "bad-op")
+  | ["paused", p] => ({ a with s := (step a.s (.setPaused (p == "1"))).1 }, "ok")
+  | _ => (a, "bad-op")
+
+partial def loop (h : IO.FS.Stream) (out : IO.FS.Stream) (s : State) (a : Nsq.Model.Pump.Acc) : IO Unit := do
   let line ← h.getLine
   if line.isEmpty then return ()
-  let r := stepLine s (line.dropRightWhile (· == '\n'))
-  out.putStrLn r.2
-  loop h out r.1
+  let l := line.dropRightWhile (· == '\n')
+  match l.splitOn " " with
+  | "P" :: w =>
+    let r := stepPump a w
+    out.putStrLn r.2
+    loop h out s r.1
+  | _ =>
+    let r := stepLine s l
+    out.putStrLn r.2
+    loop h out r.1 (if l == "reset" then {} else a)
 
 def main : IO Unit := do
   let out ← IO.getStdout
-  loop (← IO.getStdin) out {}
+  loop (← IO.getStdin) out {} {}
   out.flush
